@@ -291,7 +291,10 @@ struct Tally {
     std::map<std::string, unsigned long> kinds; std::vector<std::string> first; unsigned long runs, seqs; size_t keep;
     std::map<std::string, unsigned long> exc; unsigned long rOk, rErr, rTrunc;
     std::map<std::string, unsigned long> excByClass;     // "<class of ill-formedness>\t<exception type:code>" (unsplit runs)
-    Tally() : runs(0), seqs(0), keep(12), rOk(0), rErr(0), rTrunc(0) {}
+    Tally() : runs(0), seqs(0), keep(12), rOk(0), rErr(0), rTrunc(0), lastTick(0) {}
+    // progress: the runner's watchdog wants to see the log grow while a long enumeration is running
+    unsigned long lastTick;
+    void tick() { if (runs - lastTick >= 100000) { lastTick = runs; gOut.line("T\t" + itos(runs)); gOut.flush(); } }
     // count a mismatch; true when its details should be logged (the first three of each kind)
     bool hit(const std::string& kind) { unsigned long& c = kinds[kind]; c++; return c <= 3 && first.size() < keep * 4; }
     void detail(const std::string& kind, const std::string& d) { first.push_back("M\t" + kind + "\t" + d); }
@@ -366,7 +369,7 @@ void modeU8Sweep(const Case& cs) {
                     XMLByte* s = buf + pre;
                     s[0] = XMLByte(b0); if (len >= 2) s[1] = XMLByte(b1);
                     if (len == 3) s[2] = XMLByte(tails[ti]); else if (len == 4) { s[2] = XMLByte(tails[ti] >> 8); s[3] = XMLByte(tails[ti]); }
-                    T.seqs++;
+                    T.seqs++; T.tick();
                     c.splitLo = pre > 1 ? (size_t)pre : 1; c.splitHi = (size_t)(pre + len);
                     if (bare) { bool sv = c.splits; c.splits = sv && !padded; sweepOne(c, buf, pre + len, "bare"); c.splits = sv; }
                     if (padded) { memcpy(s + len, kPad, 5); sweepOne(c, buf, pre + len + 5, "padded"); memset(s + len, 'a', 5); }
@@ -390,7 +393,7 @@ void modeCpSweep(const Case& cs) {
         static const size_t kMC[] = { 64, 1, 2, 3 };
         for (unsigned long cp = lo; cp < hi; cp++) {
             if (cp >= 0xD800 && cp < 0xE000) continue;
-            T.seqs++;
+            T.seqs++; T.tick();
             XMLCh u[2]; size_t nu = 1;
             if (cp >= 0x10000) { unsigned long c = cp - 0x10000; u[0] = XMLCh(0xD800 + (c >> 10)); u[1] = XMLCh(0xDC00 + (c & 0x3FF)); nu = 2; } else u[0] = XMLCh(cp);
             XMLByte eb[8]; size_t en = refEncodeCp(k, cp, eb);
@@ -469,6 +472,7 @@ void modeSbSweep(const Case& cs) {
         std::map<unsigned, unsigned long> repBytes;
         for (unsigned long cp = 0; cp < 0x10000 + 3; cp++) {
             unsigned long c = cp < 0x10000 ? cp : cp == 0x10000 ? 0x10000UL : cp == 0x10001 ? 0x1F600UL : 0x10FFFFUL;
+            T.tick();
             if (skipCp[c]) { undecided++; continue; }
             XMLCh u[2]; size_t nu = 1; bool sur = c >= 0xD800 && c < 0xE000;
             if (sur && c != 0xD800 && c != 0xDBFF && c != 0xDC00 && c != 0xDFFF) continue;
@@ -515,7 +519,7 @@ void modeSbSweep(const Case& cs) {
             bool exp = !sur && inv[cp] >= 0;
             if (icu && !exp) continue;
             bool can = false; try { can = t->canTranscodeTo((unsigned int)cp); } catch (...) { XV_MIS(T, "canto:threw", "U+" + hex4(cp) + "\t\texp=bool\tobs=exception"); continue; }
-            T.runs++; (can ? canT : canF)++;
+            T.runs++; T.tick(); (can ? canT : canF)++;
             if (can != exp) XV_MIS(T, std::string("canto:") + (exp ? "false-for-representable" : "true-for-unrepresentable") + (cp == 0 ? ":nul" : sur ? ":lone-surrogate" : cp >= 0x10000 ? ":supplementary" : bestFit[cp] ? ":bestfit" : ""), "U+" + hex4(cp) + "\t\texp=" + (exp ? "true" : "false") + "\tobs=" + (can ? "true" : "false"));
         }
         gOut.line("CAN\ttrue=" + itos(canT) + "\tfalse=" + itos(canF));
@@ -575,7 +579,7 @@ void modeIcuRt(const Case& cs) {
             if (x.empty()) continue;
             size_t xn = x.size();
             for (int i = 0; i < 4; i++) x.push_back(XMLCh('A'));
-            chunks++; T.seqs++;
+            chunks++; T.seqs++; T.tick();
             XMLTranscoder* te = mk(enc); XMLTranscoder* td = mk(enc);
             if (!te || !td) { delete te; delete td; gOut.line("NOTRANS\t" + enc); break; }
             libEncode(te, x.data(), x.size(), x.size(), BLOCK, XMLTranscoder::UnRep_Throw, E, B); T.runs++;
